@@ -447,6 +447,7 @@ def run(chk, repo, tier):
     # ---- L4 lock order graph
     _lock_order(chk, repo, m, L4, rel)
     run_l10_l11(chk, repo)
+    run_l12(chk, repo)
 
 
 def dict_in(lf, nid):
@@ -702,3 +703,55 @@ def run_l10_l11(chk, repo):
                                       'process lock is dropped and another process gets the exclusive database lock')
     if n11 == 0:
         raise AnalysisError('L11: no caller of path_lock found')
+
+
+def run_l12(chk, repo):
+    import itertools
+    from sa import tables as T_
+    L12 = chk.rule('L12', 'acquire side of the process lock: the fcntl lock is (re)taken when nothing is held and for an upgrade, '
+                          'and never in shared mode while an exclusive holder exists (truth table)', floor=1)
+    m = repo.module('pharmpy.internals.fs.lock')
+    cls = m.classes.get('ShareableProcessLock')
+    f = cls.methods.get('lock') if cls else None
+    if f is None:
+        raise AnalysisError('ShareableProcessLock.lock not found')
+    defs = {n.targets[0].id: n.value for n in walk_no_nested(f.node) if isinstance(n, ast.Assign)
+            and isinstance(n.targets[0], ast.Name) and isinstance(n.value, ast.BoolOp)}
+    guard = None
+    for I in [x for x in walk_no_nested(f.node) if isinstance(x, ast.If)]:
+        if any(isinstance(c, ast.Call) and dotted(c.func) == '_process_level_lock' and len(c.args) >= 2
+               and isinstance(c.args[1], ast.Name) for s_ in I.body for c in ast.walk(s_)) \
+                and 'is_held' in unparse(I.test):
+            guard = I
+    if guard is None:
+        raise AnalysisError('L12: guard of the acquire-side process lock call not found')
+
+    def ev(e, env):
+        if isinstance(e, ast.Name) and e.id in defs and e.id not in env:
+            return ev(defs[e.id], env)
+        if isinstance(e, ast.BoolOp):
+            vals = [ev(v, env) for v in e.values]
+            return all(vals) if isinstance(e.op, ast.And) else any(vals)
+        if isinstance(e, ast.UnaryOp) and isinstance(e.op, ast.Not):
+            return not ev(e.operand, env)
+        return T_.eval_pred(e, env)
+    bad = []
+    for hs, he, sh in itertools.product([False, True], repeat=3):
+        env = {'is_held_shared': hs, 'is_held_exclusively': he, 'shared': sh, 'is_windows': False}
+        try:
+            relock = bool(ev(guard.test, env))
+        except T_.Undecidable as e:
+            raise AnalysisError(f'L12: cannot evaluate `{unparse(guard.test)}`: {e}')
+        held = hs or he
+        if not held and not relock:
+            bad.append((env, 'nothing is held but the fcntl lock is not taken'))
+        if he and sh and relock:
+            bad.append((env, 'an exclusive holder exists and the fcntl lock is re-taken in shared mode (downgrade)'))
+        if hs and not he and not sh and not relock:
+            bad.append((env, 'only shared holders exist, an exclusive request does not upgrade the fcntl lock'))
+    chk.instance(L12, f'`if {unparse(guard.test)}`: 8 states evaluated, wrong: {len(bad)}')
+    for env, why in bad[:2]:
+        chk.violation(L12, m.rel, f.qualname, f'if {unparse(guard.test)}',
+                      f'{why} (state {dict((k, v) for k, v in env.items() if k != "is_windows")})', line=guard.lineno,
+                      witness='a thread holds the path exclusively and nests a reentrant shared request: another process then '
+                              'gets a shared lock while the exclusive section is still running')
